@@ -23,6 +23,8 @@ def run(tier):
     for cfgname in cfgs:
         prog = Program.load(which=('SRC',), cfg=cfgname)
         eff = PathEffects(prog)
+        from ..rules import symbolic as _sym
+        _sym.dfs_twin_rule(chk, 'C04.dfs', prog, [q + 'column_dfs' for q in 'sdcz'], cfgname)
         chk.clause('C04.D1', 'pivot rule of ?pivotL')
         chk.clause('C04.D2', 'first failing column kept in ?gstrf')
         chk.clause('C04.guard', 'R3 oracle group `guard` of ?gssvx (D3)')
@@ -37,6 +39,7 @@ def run(tier):
         n1 = n2 = n3 = 0
         for p in _drv.PRECS:
             n1 += pivot.run(chk, 'C04.D1', prog, p, cfgname)
+            pivot.pivrow_in_sync_rule(chk, 'C04.D1', prog, p, cfgname)
             n2 += factor_tail.run(chk, 'C04.D2', prog, p, cfgname)
             f, fl, leaves = _gssvx.leaves_for(prog, eff, p, ilu=False, tier=tier, split=('Fact', 'Trans', 'Equil', 'A.Stype', 'B.ncol', 'equed', 'info', 'lwork'))
             ctx = _expert.Ctx(prog, f, fl, p, False)
